@@ -12,8 +12,9 @@ open DSymVerif.LowIndexP DSymVerif.CosetInvP DSymVerif.CosetPartP
 /-- **completeness** of the low-index search of the model: every valid table (transitive
     action of the presented group with a base point) with at most `k` rows is isomorphic to
     one of the tables the search yields -/
-theorem cosetTables_complete (n : Nat) (rels : List (List Int)) (k fuel : Nat)
-    (hcr : ∀ ρ ∈ rels, ρ = [] ∨ FWP.CR ρ) (hlet : ∀ w ∈ rels, ∀ x ∈ w, x ∈ allGensOf n)
+theorem cosetTables_complete_gen (n : Nat) (rels rels' : List (List Int)) (k fuel : Nat)
+    (hrot : RotClosed rels' (expandedRelatorSet rels)) (hlet' : ∀ w ∈ rels', ∀ x ∈ w, x ∈ allGensOf n)
+    (hlet : ∀ w ∈ rels, ∀ x ∈ w, x ∈ allGensOf n)
     (hf : (BT.dfs (btProblem n (expandedRelatorSet rels) k) (height k) (.ok (Table.new n))).length ≤ fuel)
     (A : Tab) (hA : validTable A n rels [] = true) (hk : A.size ≤ k) :
     ∃ t' v σ, (Outcome.ok t') ∈ cosetTables n rels k fuel ∧ t'.view = .ok v ∧ TabIso A (viewTab v) n σ := by
@@ -50,7 +51,7 @@ theorem cosetTables_complete (n : Nat) (rels : List (List Int)) (k fuel : Nat)
       rw [ofView_len] at hr'
       exact mtrace_ofView v r' r' (expanded_close hvu hlet hv r' hr')
     · rw [ofView_len]; omega
-  obtain ⟨Q, t', hreach, hext, hlen, hgens, hget⟩ := target_found (rotClosed_expanded hcr) hlet hwR tg
+  obtain ⟨Q, t', hreach, hext, hlen, hgens, hget⟩ := target_found hrot hlet' hwR tg
   rw [ofView_len] at hlen
   have hmemt : (Outcome.ok t') ∈ cosetTables n rels k fuel := by
     unfold cosetTables
@@ -97,5 +98,12 @@ theorem cosetTables_complete (n : Nat) (rels : List (List Int)) (k fuel : Nat)
       | some j => exact absurd (col_isSome.mp (by rw [h]; rfl)) hg
     rw [entry_of_col_none hcol, entry_of_col_none hcol]
     rfl
+
+theorem cosetTables_complete (n : Nat) (rels : List (List Int)) (k fuel : Nat)
+    (hcr : ∀ ρ ∈ rels, ρ = [] ∨ FWP.CR ρ) (hlet : ∀ w ∈ rels, ∀ x ∈ w, x ∈ allGensOf n)
+    (hf : (BT.dfs (btProblem n (expandedRelatorSet rels) k) (height k) (.ok (Table.new n))).length ≤ fuel)
+    (A : Tab) (hA : validTable A n rels [] = true) (hk : A.size ≤ k) :
+    ∃ t' v σ, (Outcome.ok t') ∈ cosetTables n rels k fuel ∧ t'.view = .ok v ∧ TabIso A (viewTab v) n σ :=
+  cosetTables_complete_gen n rels rels k fuel (rotClosed_expanded hcr) hlet hlet hf A hA hk
 
 end DSymVerif.CanonP
